@@ -71,6 +71,40 @@ class ClassInfo:
         return f"<Class {self.dotted}>"
 
 
+class _Idioms(ast.NodeTransformer):
+    """One spelling for numpy idioms that mean the same for every argument (applied to every module as it is loaded, so no
+    rule sees the other spelling; positions are kept):
+        x.reshape(a, b, ...)    ->  x.reshape((a, b, ...))      the shape as one tuple
+        x[:, ::-1]              ->  np.fliplr(x)                 (both need ndim >= 2, both return the reversed-column view)
+        len(x.shape)            ->  x.ndim
+    Spellings that agree only for some ranks or types (vstack / concatenate, dot / @, flatnonzero / nonzero()[0]) are not
+    touched; rules that care list the alternatives."""
+
+    def visit_Call(self, node):
+        self.generic_visit(node)
+        f = node.func
+        if isinstance(f, ast.Attribute) and f.attr == "reshape" and len(node.args) >= 2 and not node.keywords \
+                and not any(isinstance(a, ast.Starred) for a in node.args):
+            tup = ast.copy_location(ast.Tuple(elts=list(node.args), ctx=ast.Load()), node.args[0])
+            tup.end_lineno, tup.end_col_offset = getattr(node.args[-1], "end_lineno", None), getattr(node.args[-1], "end_col_offset", None)
+            node.args = [tup]
+        if isinstance(f, ast.Name) and f.id == "len" and len(node.args) == 1 and not node.keywords and isinstance(node.args[0], ast.Attribute) \
+                and node.args[0].attr == "shape":
+            return ast.copy_location(ast.Attribute(value=node.args[0].value, attr="ndim", ctx=ast.Load()), node)
+        return node
+
+    def visit_Subscript(self, node):
+        self.generic_visit(node)
+        sl = node.slice
+        if isinstance(node.ctx, ast.Load) and isinstance(sl, ast.Tuple) and len(sl.elts) == 2 and all(isinstance(e, ast.Slice) for e in sl.elts):
+            a, b = sl.elts
+            if a.lower is None and a.upper is None and a.step is None and b.lower is None and b.upper is None \
+                    and isinstance(b.step, ast.UnaryOp) and isinstance(b.step.op, ast.USub) and isinstance(b.step.operand, ast.Constant) and b.step.operand.value == 1:
+                fn = ast.copy_location(ast.Attribute(value=ast.copy_location(ast.Name(id="np", ctx=ast.Load()), node), attr="fliplr", ctx=ast.Load()), node)
+                return ast.copy_location(ast.Call(func=fn, args=[node.value], keywords=[]), node)
+        return node
+
+
 class Module:
     def __init__(self, name, path, rel, src):
         self.name = name
@@ -78,7 +112,7 @@ class Module:
         self.rel = rel
         self.src = src
         self.lines = src.splitlines()
-        self.tree = ast.parse(src, filename=path)
+        self.tree = _Idioms().visit(ast.parse(src, filename=path))
         self.imports = {}  # local alias -> dotted target
         self.functions = {}
         self.classes = {}
